@@ -331,6 +331,18 @@ def check(pid, tier, seed, keep=False, extra_env=None, quiet=False):
                 agg["exhaustive"] = rep["exhaustive"] if agg["exhaustive"] is None else (agg["exhaustive"] and rep["exhaustive"])
             for v in rep.get("violations") or []:
                 violations.append(dict(cls=v.get("class"), detail=v.get("detail"), replay=v.get("replay") or m["log"], match=v.get("match") or {}, case=v.get("case")))
+            if rc != 0 and not (rep.get("violations") or []) and not nraces and not nraces_inline and not asan_files:
+                # the report was written but the process still failed (e.g. a
+                # panic after the deferred Finish, or a leaked-iterator finalizer)
+                lc = last_case(outdir, pid, part.get("report_part", part["name"]), m["shard"])
+                mm = re.search(r"^(panic:.*|fatal error:.*)$", logtxt, re.M)
+                if mm:
+                    wp = save_witness(pid, "panic", [m["log"]], dict(property=pid, cls="panic", seed=seed, tier=tier, part=part["name"], shard=m["shard"], last_case=lc))
+                    violations.append(dict(cls="panic", detail="process died after writing its report: %s (last %s)" % (mm.group(1)[:300], lc), replay=wp, match={"message": mm.group(1)[:300]}))
+                elif rc == 124 or rc == 137:
+                    inconclusive.append("%s/%d: watchdog fired after the report was written" % (part["name"], m["shard"]))
+                else:
+                    harness_errors.append("part %s shard %d exited rc=%s without recorded violations (log %s)" % (part["name"], m["shard"], rc, m["log"]))
         else:
             # no report: the process died or timed out
             lc = last_case(outdir, pid, part.get("report_part", part["name"]), m["shard"])
